@@ -3260,6 +3260,7 @@ func runWriteBack(p *Program, c *Collector, a FuncRuleSpec) {
 				}
 				// initialised from a container element?
 				fromElem := false
+				var initBlock *ssa.BasicBlock
 				var fieldStores []*ssa.Store
 				exports := map[ssa.Instruction]bool{}
 				escapes := false
@@ -3270,6 +3271,7 @@ func runWriteBack(p *Program, c *Collector, a FuncRuleSpec) {
 					switch u := r.(type) {
 					case *ssa.Store:
 						if u.Addr == ssa.Value(al) {
+							initBlock = u.Block()
 							switch v := u.Val.(type) {
 							case *ssa.Lookup:
 								fromElem = true
@@ -3324,7 +3326,8 @@ func runWriteBack(p *Program, c *Collector, a FuncRuleSpec) {
 					if bad != nil {
 						break
 					}
-					region := innermost(st.Block())
+					// the iteration that matters is that of the loop in which the copy is taken
+					region := innermost(initBlock)
 					// forward search from the store
 					type pt struct {
 						b *ssa.BasicBlock
